@@ -101,8 +101,12 @@ class UpdateReferences:
 
   def __update_field_references(self, oldref, newref, possible_fieldnames):
     for fn in possible_fieldnames:
-      self.__update_reference_in_field(fn, oldref,
-          newref if newref else str(oldref))
+      if newref is None and isinstance(self.get(fn), list):
+        # the reference is an item of a list: drop the mention
+        self.__update_reference_in_list(self.get(fn), oldref, None)
+      else:
+        self.__update_reference_in_field(fn, oldref,
+            newref if newref else str(oldref))
 
   def __update_nonfield_references(self, oldref, newref, possible_keys):
     for key in possible_keys:
